@@ -5,6 +5,7 @@ import (
 	"go/constant"
 	"go/token"
 	"math"
+	"math/bits"
 	"reflect"
 )
 
@@ -1193,17 +1194,17 @@ func (check typecheck) convertConst(v reflect.Value, t reflect.Type) (reflect.Va
 }
 
 var bitlen = [...]int{
-	reflect.Int:     64,
+	reflect.Int:     bits.UintSize,
 	reflect.Int8:    8,
 	reflect.Int16:   16,
 	reflect.Int32:   32,
 	reflect.Int64:   64,
-	reflect.Uint:    64,
+	reflect.Uint:    bits.UintSize,
 	reflect.Uint8:   8,
 	reflect.Uint16:  16,
 	reflect.Uint32:  32,
 	reflect.Uint64:  64,
-	reflect.Uintptr: 64,
+	reflect.Uintptr: bits.UintSize,
 }
 
 func representableConst(c constant.Value, t reflect.Type) bool {
